@@ -1,6 +1,7 @@
 package level
 
 import (
+	"errors"
 	"fmt"
 	"io"
 	"math"
@@ -158,6 +159,9 @@ func (b *BitStorage) ReadFrom(r io.Reader) (int64, error) {
 	n, err := Len.ReadFrom(r)
 	if err != nil {
 		return n, err
+	}
+	if Len < 0 {
+		return n, errors.New("level: negative BitStorage length")
 	}
 	if cap(b.data) >= int(Len) {
 		b.data = b.data[:Len]
